@@ -15,7 +15,35 @@ Oracles (implementation alone, float64, independent of the code's incremental al
   * alpha = mean of the transformed observations; precision bounds after every precision stage; block order;
     the MVN result equals U^-1 z + Q^-1 b (float64 solve); export reproduces `Mu` and 1/prec.
 The input class "same non-control treatment twice in a row" is generated in its own stream and reported with
-signature `C08:self-pair-cache` (known finding).
+signature `C08:self-pair-cache` (known finding) ONLY when the stale entries are confined to rows with the same
+non-control treatment twice and first appear after `_V0_step`, `_V2_step` or `_V1_step`; any other cache difference
+in that stream is an ordinary violation.
+
+Streams: `main` (random datasets / states / sweep counts), `grid` (for every D in 1..6: three consecutive sweeps from
+a fresh model and from a randomised state in which all hyper-parameters are pairwise distinct; dataset with
+combination rows, single-agent rows in both positions, a treatment and a sample without data), `history` (rows added
+between sweeps through a second `add_observations`, `reset_model()` between sweeps), `selfpair`, `mvn`.
+Further oracles: the training tuples are not modified by a step; a sample exported after sweep k still reproduces
+sweep k's fitted values and precision after sweep k+1 ran (no aliasing of the sampler's arrays); a step that raises
+is a violation (`C08:step-raised`) with a replay, not a harness crash.
+`_reconstruct_Mu` is not a block: the order oracle looks at the twelve blocks; the cache oracle looks at the cache when
+the first block starts and after every stage (so a sampler that reconstructs only when needed, or once more with
+clip=False, stays green, while a clipping reconstruction between blocks is reported when it changes a value).
+
+Mutants tried on a scratch copy (audit a-c08; all CAUGHT with a replay unless noted): eta2 in _prec_V1_step's phi rate;
+last sweep's phi2 in the eta2 rate; wrong partner column in _V2_step's X2; V2 partner values snapshotted before the loop;
+Mu snapshotted before the loop of _V1_step; prec upper clip 1e7; eta2 without upper clip; phi1 clipped with min(C); tau
+unclipped; phi0 lower bound too low; no-data branches with the wrong precision (W: tau0, V1: phi2, W0: tau[0]);
+V0 count = len(idx1); V0 without eta0; phi0 rate without 1/2; etaaux2 from eta1; gam shape off by one; gam[0] rate from
+tau; gam rate divided by gam[d-1]; cumprod(gam) hoisted out of the loop over d; phi1*eta2 in _V1_step; tau[0] on the whole
+diagonal of W's Q; tau0 rate with mean instead of sum; prec rate with sse instead of sse/2; residual sum of squares not from
+Mu in the first sweep; alpha = median / cached mean; swapped _prec_V1/_prec_V2; reconstruct with clip; clipping reconstruct
+between blocks; no reconstruct at all; solve_triangular with the untransposed factor; export aliasing V1 / W (was MISSED,
+now C08:export-alias); exported precision stale; logit clip 0.001; dd1/dd2 swapped in _update; encode_obs memoised (was
+invisible without the history stream, now C08:step-raised); W0 / V1 cache increments dropped or halved.
+Equivalent (stay green): cho_solve((L, True)); Mu snapshotted before the loop of _W_step (samples touch disjoint rows);
+reconstruct only when len(Mu) != n_obs; an extra reconstruct with clip=False; reset_model keeping W0.
+Tie only (not a violation of the text): clip bound C cached from an earlier, smaller dataset (value stays inside the bounds).
 """
 import random
 import struct
@@ -29,7 +57,9 @@ common.use_repo_sources()
 
 RULE = ("datasets: nC 1-4 samples, nT 1-6 treatments, D 1-6, 0-28 rows mixing combination rows, single-agent rows in either "
         "position and all-control rows; some samples/treatments without data; 1-5 consecutive sweeps from the initial state or "
-        "from a randomised state; prescribed draws (float32-exact, occasionally extreme to hit the clips; forced MVN failures). "
+        "from a randomised state; prescribed draws (float32-exact, occasionally extreme to hit the clips; forced MVN failures); "
+        "grid: every D in 1..6 x {fresh, randomised with pairwise distinct hyper-parameters} x 3 sweeps; histories with rows "
+        "added between sweeps and reset_model(). "
         "Non-trivial: >=1 combination row, >=1 single-agent row, some treatment seen in both positions.")
 
 TOL = 2e-5          # float32 arrays vs float64 model / independent derivation (measured noise ~2e-7 relative to scale)
@@ -65,6 +95,40 @@ def itok(xs):
 # ------------------------------------------------------------------------------------------------
 # case generation
 # ------------------------------------------------------------------------------------------------
+
+GRID_ROWS = [[0, 0, 1], [0, 1, 0], [1, 0, 2], [1, 2, 1], [0, 0, -1], [1, -1, 0], [0, 2, -1], [1, -1, 1], [0, -1, -1],
+             [2, 1, 2], [2, 0, 1], [0, 1, 2], [2, -1, 2], [1, 1, 0]]
+
+
+def grid_spec(seed, D, perturbed):
+    """fixed-shape case of the grid stream: 4 samples (sample 3 without data), 4 treatments (treatment 3 without data), all of
+    treatments 0..2 in both positions, 3 consecutive sweeps, no wild draws, no forced failures"""
+    rng = random.Random(seed)
+    obs = [rng.random() for _ in GRID_ROWS]
+    return {"stream": "grid", "case_seed": seed, "grid": [D, bool(perturbed)], "nC": 4, "nT": 4, "D": D, "rows": [list(r) for r in GRID_ROWS],
+            "obs": obs, "perturb": bool(perturbed), "wild": False, "fail_p": 0.0, "max_sweeps": 3, "sweeps": 3}
+
+
+def history_spec(seed, max_sweeps):
+    """a `main` dataset with >= 4 rows whose tail is added by a second add_observations() before sweep `grow_at`, and/or
+    reset_model() before sweep `reset_at`; three sweeps"""
+    rng = random.Random(seed ^ 0x715)
+    for k in range(50):
+        spec = gen_spec(seed + k, "main", max_sweeps)
+        if len(spec["rows"]) >= 4:
+            break
+    spec["stream"] = "history"
+    spec["case_seed"] = seed
+    spec["sweeps"] = 3
+    spec["fail_p"] = 0.0
+    kind = rng.choice(["grow", "grow", "reset", "both"])
+    if kind in ("grow", "both"):
+        spec["n0"] = rng.randint(0, len(spec["rows"]) - 1)
+        spec["grow_at"] = rng.choice([1, 2])
+    if kind in ("reset", "both"):
+        spec["reset_at"] = rng.choice([1, 2])
+    return spec
+
 
 def gen_spec(seed, stream, max_sweeps):
     rng = random.Random(seed)
@@ -115,27 +179,43 @@ def fixed_selfpair_spec():
             "fail_p": 0.0, "max_sweeps": 1, "sweeps": 1}
 
 
-def build_model(spec):
-    from batchie.data import Screen, ExperimentSpace
-    from batchie.models.sparse_combo import SparseDrugCombo
-    nT, nC, D, rows = spec["nT"], spec["nC"], spec["D"], spec["rows"]
+def maps_of(spec):
+    nT, nC = spec["nT"], spec["nC"]
     tmap = (np.array(["t%d" % i for i in range(nT)] + [""], dtype=str), np.array([1.0] * nT + [0.0]),
             np.array(list(range(nT)) + [-1]))
     smap = (np.array(["s%d" % i for i in range(nC)], dtype=str), np.arange(nC))
+    return tmap, smap
+
+
+def build_screen(spec, rows, obs):
+    from batchie.data import Screen
+    if not rows:
+        return None
+    tmap, smap = maps_of(spec)
+    tn = np.array([[("t%d" % a if a >= 0 else ""), ("t%d" % b if b >= 0 else "")] for _, a, b in rows], dtype=str)
+    td = np.array([[1.0 if a >= 0 else 0.0, 1.0 if b >= 0 else 0.0] for _, a, b in rows])
+    screen = Screen(treatment_names=tn, treatment_doses=td,
+                    sample_names=np.array(["s%d" % c for c, _, _ in rows], dtype=str),
+                    plate_names=np.array(["p"] * len(rows), dtype=str),
+                    observations=np.array(obs, dtype=float), treatment_mapping=tmap, sample_mapping=smap)
+    ids_ok = (np.array_equal(np.asarray(screen.treatment_ids), np.array([[a, b] for _, a, b in rows]))
+              and np.array_equal(np.asarray(screen.sample_ids), np.array([c for c, _, _ in rows])))
+    if not ids_ok:
+        raise RuntimeError("harness: screen ids differ from the requested ids")
+    return screen
+
+
+def build_model(spec, n0=None):
+    """the model with the first `n0` rows (default: all) added"""
+    from batchie.data import ExperimentSpace
+    from batchie.models.sparse_combo import SparseDrugCombo
+    tmap, smap = maps_of(spec)
     es = ExperimentSpace(treatment_mapping=tmap, sample_mapping=smap)
-    model = SparseDrugCombo(experiment_space=es, n_embedding_dimensions=D)
-    screen = None
-    if rows:
-        tn = np.array([[("t%d" % a if a >= 0 else ""), ("t%d" % b if b >= 0 else "")] for _, a, b in rows], dtype=str)
-        td = np.array([[1.0 if a >= 0 else 0.0, 1.0 if b >= 0 else 0.0] for _, a, b in rows])
-        screen = Screen(treatment_names=tn, treatment_doses=td,
-                        sample_names=np.array(["s%d" % c for c, _, _ in rows], dtype=str),
-                        plate_names=np.array(["p"] * len(rows), dtype=str),
-                        observations=np.array(spec["obs"], dtype=float), treatment_mapping=tmap, sample_mapping=smap)
-        ids_ok = (np.array_equal(np.asarray(screen.treatment_ids), np.array([[a, b] for _, a, b in rows]))
-                  and np.array_equal(np.asarray(screen.sample_ids), np.array([c for c, _, _ in rows])))
-        if not ids_ok:
-            raise RuntimeError("harness: screen ids differ from the requested ids")
+    model = SparseDrugCombo(experiment_space=es, n_embedding_dimensions=spec["D"])
+    rows = spec["rows"] if n0 is None else spec["rows"][:n0]
+    obs = spec["obs"] if n0 is None else spec["obs"][:n0]
+    screen = build_screen(spec, rows, obs)
+    if screen is not None:
         model.add_observations(screen)
     return model, screen
 
@@ -295,6 +375,13 @@ def run_sweep(model, proxy, fail_rng, fail_p, data):
         orig = getattr(type(w), name)
 
         def f(*a, **k):
+            if name != "_reconstruct_Mu" and not trace["stages"]:
+                # a sampler that keeps Mu purely incrementally need not call _reconstruct_Mu: what the property needs is that the
+                # cache agrees with the parameters when the first block starts -- recorded here as the state "after" that stage
+                trace["stages"].append("_reconstruct_Mu")
+                trace["mus"].append(np.array(w.Mu, dtype=np.float64))
+                trace["snaps"].append(snap(w))
+                trace["synthetic_reconstruct"] = True
             cur["stage"] = name
             trace["stages"].append(name)
             r = orig(w, *a, **k)
@@ -311,7 +398,10 @@ def run_sweep(model, proxy, fail_rng, fail_p, data):
     try:
         with warnings.catch_warnings():
             warnings.simplefilter("ignore")
-            model.step()
+            try:
+                model.step()
+            except Exception as e:      # noqa: BLE001 -- the unchanged sampler never raises on these inputs
+                trace["raised"] = "%s: %s (in %s)" % (type(e).__name__, str(e)[:200], cur["stage"])
     finally:
         sc.sample_mvn_from_precision = saved
         for nme in STAGES:
@@ -342,34 +432,63 @@ STAGE_OF = {"W0": "_W0_step", "V0": "_V0_step", "W": "_W_step", "V2": "_V2_step"
             "eta1": "_prec_V1_step", "gam": "_prec_W_step"}
 
 
-def check_sweep(spec, sweep_no, before, trace, data, y_ref, fail, counts):
+def far_rows(a, b, scale, tol):
+    """indices where |a - b| exceeds the tolerance of `close` (same formula, entrywise)"""
+    a = np.asarray(a, dtype=np.float64)
+    b = np.asarray(b, dtype=np.float64)
+    lim = tol * (1e-3 + np.maximum(np.asarray(scale, dtype=np.float64), np.maximum(np.abs(a), np.abs(b))))
+    return [int(i) for i in np.nonzero(~(np.abs(a - b) <= lim))[0]]
+
+
+KNOWN_STALE_FROM = 3        # index of _V0_step in STAGES: the first stage whose `Mu[idx] +=` can see a duplicated index
+
+
+def check_sweep(spec, rows, sweep_no, before, trace, data, y_ref, fail, counts):
     """all implementation-only oracles of one sweep; returns the canonical impl log [(site, kind, args, scale, value)]
     or None when the draw sequence has the wrong shape.  `fail(what, observed, required, signature)` reports."""
     nC, nT, D = spec["nC"], spec["nT"], spec["D"]
     y, cl, d1, d2 = data
     N = len(y)
     selfpair = spec["stream"] == "selfpair"
+    # rows of the excluded input class: the same non-control treatment in both positions
+    sp_rows = set(n for n in range(N) if d1[n] == d2[n] and d1[n] != -1)
 
-    # ---- order of the stages
-    if trace["stages"] != STAGES:
+    if trace.get("raised"):
+        fail("the sampler step raised instead of resampling every block", trace["raised"], "step() completes", "C08:step-raised")
+        return None
+
+    # ---- order of the blocks (`_reconstruct_Mu` is not a block: extra or missing calls of it are judged by the cache oracle)
+    blocks = [nm for nm in trace["stages"] if nm != "_reconstruct_Mu"]
+    if blocks != STAGES[1:] or trace["stages"][:1] != STAGES[:1]:
         fail("sweep does not visit the blocks once each in the documented order", trace["stages"], STAGES, "C08:order")
         return None
 
     # ---- cache = from-scratch recomputation after every stage
     if N > 0:
-        for name, mu_c, st in zip(trace["stages"], trace["mus"], trace["snaps"]):
+        for si, (name, mu_c, st) in enumerate(zip(trace["stages"], trace["mus"], trace["snaps"])):
             ref = mu_scratch(st, cl, d1, d2)
             sc_ = mu_scratch(st, cl, d1, d2, absolute=True)
             if mu_c.shape != ref.shape or not close(mu_c, ref, sc_, tol=1e-4):
-                bad = int(np.argmax(np.abs(mu_c - ref))) if mu_c.shape == ref.shape else -1
+                same_shape = mu_c.shape == ref.shape
+                bad = int(np.argmax(np.abs(mu_c - ref))) if same_shape else -1
+                stale = far_rows(mu_c, ref, sc_, 1e-4) if same_shape and np.all(np.isfinite(mu_c)) and np.all(np.isfinite(ref)) else None
+                # the known finding, narrowly: every stale entry sits on a row with the same non-control treatment twice and the
+                # first stale stage is one of the treatment blocks (or later); anything else is an ordinary violation
+                known = (selfpair and stale is not None and len(stale) > 0 and set(stale) <= sp_rows and si >= KNOWN_STALE_FROM)
                 fail("fitted-value cache Mu differs from a from-scratch recomputation after " + name,
-                     {"row": bad, "cline_dd1_dd2": spec["rows"][bad] if bad >= 0 else None, "Mu": mu_c.tolist()[:12], "max_abs_diff": float(np.max(np.abs(mu_c - ref))) if bad >= 0 else None},
-                     {"recomputed": ref.tolist()[:12]}, "C08:self-pair-cache" if selfpair else "C08:cache:" + name)
+                     {"row": bad, "cline_dd1_dd2": rows[bad] if bad >= 0 else None, "stale_rows": stale, "Mu": mu_c.tolist()[:12],
+                      "max_abs_diff": float(np.max(np.abs(mu_c - ref))) if bad >= 0 else None},
+                     {"recomputed": ref.tolist()[:12]}, "C08:self-pair-cache" if known else "C08:cache:" + name)
                 if selfpair:
                     return None
                 break
     if selfpair:
         return None
+    if trace["stages"] != STAGES:
+        # extra _reconstruct_Mu calls: their snapshots were judged above; keep the first one and the twelve blocks
+        keep = [0] + [i for i, nm in enumerate(trace["stages"]) if nm != "_reconstruct_Mu"]
+        for key in ("stages", "mus", "snaps"):
+            trace[key] = [trace[key][i] for i in keep]
 
     # ---- alpha = mean of the transformed observations
     st_alpha = trace["snaps"][1]
@@ -646,7 +765,9 @@ def compare_with_model(res, case, out, log, trace, after, pred, N, sweep_no):
 # one case
 # ------------------------------------------------------------------------------------------------
 
-def perturb_state(w, rng, N, nT, occ):
+def perturb_state(w, rng, N, nT, occ, distinct=False):
+    """randomised sampler state (parameters and every hyper-parameter); `distinct`: the local scales are drawn from [1, 1000]
+    without the floor at 1, so that all hyper-parameters of the state are pairwise distinct"""
     g = np.random.default_rng(rng.randrange(2 ** 32))
     s = rng.choice([0.1, 0.5, 1.0, 2.0])
     for k in ["W", "V2", "V1", "W0", "V0"]:
@@ -662,9 +783,17 @@ def perturb_state(w, rng, N, nT, occ):
     w.gam = f32(10.0 ** g.uniform(-1, 1, size=w.gam.shape)).astype(np.float32)
     w.eta2 = lu(w.eta2.shape)
     w.eta1 = lu(w.eta1.shape)
-    w.phi2 = np.maximum(lu(w.phi2.shape), 1.0)
-    w.phi1 = np.maximum(lu(w.phi1.shape), 1.0)
-    w.phi0 = np.maximum(lu(w.phi0.shape), 1.0)
+    if distinct:
+        w.phi2 = f32(10.0 ** g.uniform(0.0, 3.0, size=w.phi2.shape))
+        w.phi1 = f32(10.0 ** g.uniform(0.0, 3.0, size=w.phi1.shape))
+        w.phi0 = f32(10.0 ** g.uniform(0.0, 3.0, size=w.phi0.shape))
+    else:
+        w.phi2 = np.maximum(lu(w.phi2.shape), 1.0)
+        w.phi1 = np.maximum(lu(w.phi1.shape), 1.0)
+        w.phi0 = np.maximum(lu(w.phi0.shape), 1.0)
+
+
+EXPORT_FIELDS = ["W", "W0", "V2", "V1", "V0"]
 
 
 def run_case(spec, res, queue, report=True):
@@ -672,25 +801,14 @@ def run_case(spec, res, queue, report=True):
     from scipy.special import logit
     case = {"case_seed": spec["case_seed"], "stream": spec["stream"], "max_sweeps": spec["max_sweeps"], "nC": spec["nC"],
             "nT": spec["nT"], "D": spec["D"], "rows": spec["rows"], "sweeps": spec["sweeps"]}
-    if spec.get("fixed"):
-        case["fixed"] = spec["fixed"]
+    for k in ("fixed", "grid", "n0", "grow_at", "reset_at"):
+        if spec.get(k) is not None:
+            case[k] = spec[k]
     rng = random.Random(spec["case_seed"] ^ 0x5EED)
-    model, screen = build_model(spec)
+    n_now = spec.get("n0", len(spec["rows"])) if spec.get("grow_at") is not None else len(spec["rows"])
+    model, screen = build_model(spec, n_now)
     w = model.wrapped_model
     nC, nT, D = spec["nC"], spec["nT"], spec["D"]
-    N = len(spec["rows"])
-    y = np.array(w.y, dtype=np.float64)
-    cl = np.array([r[0] for r in spec["rows"]], dtype=int)
-    d1 = np.array([r[1] for r in spec["rows"]], dtype=int)
-    d2 = np.array([r[2] for r in spec["rows"]], dtype=int)
-    data = (y, cl, d1, d2)
-    y_ref = logit(np.clip(np.array(spec["obs"], dtype=np.float64), 0.01, 0.99)) if N else np.zeros(0)
-    # float32 rounding of the observation itself moves logit(p) by ~6e-8 / (p (1 - p)) <= 6e-6
-    if N and not close(y, y_ref, np.abs(y_ref) + 1.0):
-        res.fail("stored observations are not logit(clip(obs, 0.01, 0.99))", case, y.tolist()[:8], y_ref.tolist()[:8], "C08:transform")
-    if list(w.cline) != cl.tolist() or list(w.dd1) != d1.tolist() or list(w.dd2) != d2.tolist():
-        res.fail("training tuples differ from the screen rows", case, [list(map(int, w.cline)), list(map(int, w.dd1)), list(map(int, w.dd2))], spec["rows"], "C08:rows")
-        return
     proxy = Proxy(rng.randrange(2 ** 32), spec["wild"], None)
     model.set_rng(proxy)
     fail_rng = random.Random(rng.randrange(2 ** 32))
@@ -700,31 +818,104 @@ def run_case(spec, res, queue, report=True):
         failures.append(signature)
         res.fail(what, case, observed, required, signature)
 
+    def current_data():
+        rows = spec["rows"][:n_now]
+        N = len(rows)
+        y = np.array(w.y, dtype=np.float64)
+        cl = np.array([r[0] for r in rows], dtype=int)
+        d1 = np.array([r[1] for r in rows], dtype=int)
+        d2 = np.array([r[2] for r in rows], dtype=int)
+        y_ref = logit(np.clip(np.array(spec["obs"][:n_now], dtype=np.float64), 0.01, 0.99)) if N else np.zeros(0)
+        ok = True
+        # float32 rounding of the observation itself moves logit(p) by ~6e-8 / (p (1 - p)) <= 6e-6
+        if len(y) != N or (N and not close(y, y_ref, np.abs(y_ref) + 1.0)):
+            res.fail("stored observations are not logit(clip(obs, 0.01, 0.99))", case, y.tolist()[:8], y_ref.tolist()[:8], "C08:transform")
+            ok = len(y) == N
+        if list(w.cline) != cl.tolist() or list(w.dd1) != d1.tolist() or list(w.dd2) != d2.tolist():
+            res.fail("training tuples differ from the screen rows", case, [list(map(int, w.cline)), list(map(int, w.dd1)), list(map(int, w.dd2))], rows, "C08:rows")
+            ok = False
+        return ok, rows, N, (y, cl, d1, d2), y_ref
+
+    ok, rows, N, data, y_ref = current_data()
+    if not ok:
+        return
+    prev = None          # (theta exported after the previous sweep, its Mu, 1/prec, muabs, screen)
     occ = None
-    for sweep_no in range(spec["sweeps"]):
-        if spec["perturb"] and sweep_no == 0:
-            perturb_state(w, rng, N, nT, occ)
+    sweep_no = 0
+    extra_alias_sweep = False
+    while sweep_no < spec["sweeps"] or extra_alias_sweep:
+        oracle_sweep = sweep_no < spec["sweeps"]
+        if oracle_sweep and spec.get("grow_at") == sweep_no and n_now < len(spec["rows"]):
+            more = build_screen(spec, spec["rows"][n_now:], spec["obs"][n_now:])
+            model.add_observations(more)
+            n_now = len(spec["rows"])
+            screen = build_screen(spec, spec["rows"], spec["obs"])
+            ok, rows, N, data, y_ref = current_data()
+            res.count("history.rows_added_between_sweeps")
+            if not ok:
+                return
+        if oracle_sweep and spec.get("reset_at") == sweep_no:
+            model.reset_model()
+            res.count("history.reset_model_between_sweeps")
+        if oracle_sweep and spec["perturb"] and sweep_no == 0:
+            for _try in range(20):
+                perturb_state(w, rng, N, nT, occ, distinct=spec["stream"] == "grid")
+                hv = np.concatenate([[w.prec, w.tau0, w.eta0], np.ravel(w.tau), np.ravel(w.gam), np.ravel(w.eta2), np.ravel(w.eta1),
+                                     np.ravel(w.phi2), np.ravel(w.phi1), np.ravel(w.phi0)])
+                if spec["stream"] != "grid" or len(set(hv.tolist())) == len(hv):
+                    break
+            if spec["stream"] == "grid":
+                res.count("grid.hyperparameters_pairwise_distinct", int(len(set(hv.tolist())) == len(hv)))
+            if N and len(w.Mu) == N:
+                # keep the randomised state one the sampler could be in: its cache agrees with its parameters (a sampler that
+                # maintains Mu purely incrementally must not be flagged because the harness wrote parameters behind its back)
+                w.Mu = mu_scratch(snap(w), data[1], data[2], data[3]).astype(np.float32)
+        y, cl, d1, d2 = data
         before = snap(w)
-        trace = run_sweep(model, proxy, fail_rng, spec["fail_p"], data)
+        tuples_before = (list(map(float, w.y)), list(map(int, w.cline)), list(map(int, w.dd1)), list(map(int, w.dd2)))
+        trace = run_sweep(model, proxy, fail_rng, spec["fail_p"] if oracle_sweep else 0.0, data)
+        tuples_after = (list(map(float, w.y)), list(map(int, w.cline)), list(map(int, w.dd1)), list(map(int, w.dd2)))
+        if tuples_after != tuples_before:
+            fail("a sampler step modified the training tuples (y, cline, dd1, dd2)", [t[:8] for t in tuples_after], [t[:8] for t in tuples_before], "C08:data-mutated")
+            return
+        # the sample exported after the PREVIOUS sweep still describes the previous sweep
+        if prev is not None and N:
+            th0, mu0, var0, muabs0, scr0 = prev
+            p0 = np.asarray(th0.predict_conditional_mean(scr0), dtype=np.float64)
+            v0 = np.asarray(th0.predict_conditional_variance(scr0), dtype=np.float64)
+            res.count("export.rechecked_after_next_sweep")
+            if p0.shape != mu0.shape or not close(p0, mu0, muabs0, tol=1e-4) or not close(v0, np.full(len(mu0), var0), var0, tol=1e-9):
+                fail("a sample exported after sweep k no longer reproduces sweep k's fitted values / precision once sweep k+1 has run "
+                     "(it shares arrays with the sampler)", {"predicted_now": p0.tolist()[:12], "variance_now": v0.tolist()[:2]},
+                     {"Mu_at_export": mu0.tolist()[:12], "variance_at_export": var0}, "C08:export-alias")
+        if not oracle_sweep:
+            break
         res.evaluations += 1
         counts = {}
-        log = check_sweep(spec, sweep_no, before, trace, data, y_ref, fail, counts)
+        log = check_sweep(spec, rows, sweep_no, before, trace, data, y_ref, fail, counts)
         for k_, v_ in counts.items():
             res.count(k_, v_)
         after = snap(w)
         # export reproduces the cache and the noise precision
         pred = None
+        prev = None
         if N:
             th = model.get_model_state()
             pred = np.asarray(th.predict_conditional_mean(screen), dtype=np.float64)
             var = np.asarray(th.predict_conditional_variance(screen), dtype=np.float64)
             muabs = mu_scratch(after, cl, d1, d2, absolute=True)
-            if spec["stream"] == "main":
+            if spec["stream"] != "selfpair":
                 if pred.shape != after["Mu"].shape or not close(pred, after["Mu"], muabs, tol=1e-4):
                     fail("exported sample does not reproduce the sampler's fitted values on the training rows",
                          pred.tolist()[:12], after["Mu"].tolist()[:12], "C08:export")
                 if var.shape != (N,) or not close(var, np.full(N, 1.0 / after["prec"]), 1.0 / after["prec"], tol=1e-9):
                     fail("exported variance is not 1/prec", var.tolist()[:4], 1.0 / after["prec"], "C08:export")
+                prev = (th, np.array(after["Mu"]), 1.0 / after["prec"], muabs, screen)
+                shared = [k for k in EXPORT_FIELDS if np.shares_memory(np.asarray(getattr(th, k)), getattr(w, k))]
+                if shared and sweep_no == spec["sweeps"] - 1 and log is not None:
+                    # last oracle sweep of the case: run one more step so that the aliasing shows as behaviour
+                    extra_alias_sweep = True
+                    res.count("export.shares_memory_with_sampler")
         if log is None:
             return
         trace["muabs"] = {name: (mu_scratch(st, cl, d1, d2, absolute=True) + (np.abs(y) if N else 0)) for name, st in zip(trace["stages"], trace["snaps"])}
@@ -732,6 +923,7 @@ def run_case(spec, res, queue, report=True):
         queue.append((line, case, log, trace, after, pred, N, sweep_no))
         if any(r["kind"] == "mvn" and r["failed"] for r in trace["records"]):
             res.count("sweeps.with_failed_mvn")
+        sweep_no += 1
     res.traces_validated += 1
 
 
@@ -794,13 +986,28 @@ def run(ctx, res):
     max_sweeps = ctx.scale(3, 5, 5)
     queue = []
     rng = ctx.subrng("main")
-    n_main = ctx.scale(150, 3000, 800)
+    n_main = ctx.scale(220, 3000, 800)
     for t in range(n_main):
         spec = gen_spec(rng.randrange(2 ** 48), "main", max_sweeps)
         describe(spec, res)
         run_case(spec, res, queue)
         if t < 4:
             res.sample({k: spec[k] for k in ("stream", "case_seed", "nC", "nT", "D", "rows", "sweeps")})
+    # grid: every embedding size, fresh and randomised (pairwise distinct hyper-parameters), three consecutive sweeps
+    rng = ctx.subrng("grid")
+    for rep_ in range(ctx.scale(1, 6, 2)):
+        for D in range(1, 7):
+            for perturbed in (False, True):
+                spec = grid_spec(rng.randrange(2 ** 48), D, perturbed)
+                res.count("grid.D=%d.%s" % (D, "randomised" if perturbed else "fresh"))
+                describe(spec, res)
+                run_case(spec, res, queue)
+    # histories: rows added between sweeps, reset_model() between sweeps
+    rng = ctx.subrng("history")
+    for t in range(ctx.scale(24, 300, 80)):
+        spec = history_spec(rng.randrange(2 ** 48), max_sweeps)
+        describe(spec, res)
+        run_case(spec, res, queue)
     rng = ctx.subrng("selfpair")
     n_known = len(res.oracle_failures)
     res.count("selfpair.cases")
@@ -842,6 +1049,10 @@ def replay(ctx, case, res):
         return
     if case.get("fixed") == "selfpair-witness":
         spec = fixed_selfpair_spec()
+    elif case.get("grid"):
+        spec = grid_spec(case["case_seed"], case["grid"][0], case["grid"][1])
+    elif case.get("stream") == "history":
+        spec = history_spec(case["case_seed"], case.get("max_sweeps", 3))
     else:
         spec = gen_spec(case["case_seed"], case["stream"], case.get("max_sweeps", 3))
     queue = []
